@@ -19,7 +19,7 @@ META = dict(
 
 # TLC evaluates the transcribed machine at ~0.3 ms per case, so the bounds are set by the time budget
 BOUNDS = {"quick": [dict(A1=4, A2=3, A3=1, M2=2, MaxStr=5, WithTab="FALSE")],
-          "thorough": [dict(A1=5, A2=3, A3=2, M2=3, MaxStr=7, WithTab="FALSE"),
+          "thorough": [dict(A1=5, A2=3, A3=2, M2=3, MaxStr=6, WithTab="FALSE"),
                        dict(A1=0, A2=0, A3=0, M2=0, MaxStr=5, WithTab="TRUE")]}
 WITNESSES = ("WitnessEscapedSingle", "WitnessTrailingRun", "WitnessEmptyArg", "WitnessPushback", "WitnessEmptyTokens",
              "WitnessBareBackslash", "WitnessBareQuote")
